@@ -651,7 +651,7 @@ func finish(prop, tier string, seed int, files []*harnessFile, results []*entryR
 			}
 		}
 		for _, w := range r.ex.Witnesses {
-			witnesses = append(witnesses, pending{r, &sym.Cex{Entry: w.Entry, Table: w.Table, Note: w.Status + "|" + strings.Join(w.Obs, ";"), Implicit: w.Approx}})
+			witnesses = append(witnesses, pending{r, &sym.Cex{Entry: w.Entry, Table: w.Table, Note: w.Status + "|" + strings.Join(w.Obs, ";") + "|" + strings.Join(w.Failed, ","), Implicit: w.Approx}})
 		}
 	}
 	// native replays, grouped by harness package
@@ -693,9 +693,9 @@ func finish(prop, tier string, seed int, files []*harnessFile, results []*entryR
 			for i, p := range ps {
 				o := outs[i]
 				if kinds[k][i] == "wit" {
-					sp := strings.SplitN(p.cex.Note, "|", 2)
-					wantStatus, wantObs := sp[0], sp[1]
-					if o.Status == wantStatus && strings.Join(o.Obs, ";") == wantObs && len(o.Failed) == 0 {
+					sp := strings.SplitN(p.cex.Note, "|", 3)
+					wantStatus, wantObs, wantFailed := sp[0], sp[1], sp[2]
+					if o.Status == wantStatus && strings.Join(o.Obs, ";") == wantObs && strings.Join(dedupe(o.Failed), ",") == strings.Join(dedupe(strings.FieldsFunc(wantFailed, func(r rune) bool { return r == ',' })), ",") {
 						witnessOK++
 					} else if p.cex.Implicit {
 						witnessApprox++
